@@ -531,3 +531,93 @@ func VerifC07_GetMany() {
 		}
 	}
 }
+
+func init() { vrt.Register("VerifC07_NestedRepeated", VerifC07_NestedRepeated) }
+
+// VerifC07_NestedRepeated: M{map<string,Inner> members=2; Inner one=3; repeated string tail=2'}: a repeated
+// field that is the last thing in a nested message (map value / message field), followed in the parent by
+// records of the same field number, addressed by field id or by field NAME: only the nested message's own
+// elements are returned.
+//   SHAPE=0: members["a"].names, members["b"].names   SHAPE=1: one.names followed by outer field 2 records
+func VerifC07_NestedRepeated() {
+	byName := vrt.Param("BYNAME") != 0
+	shape := vrt.Param("SHAPE")
+	ca, cb := vrt.Param("CA"), vrt.Param("CB")
+	inner := proto.VerifNewMessage("Inner")
+	proto.VerifAddField(inner, 2, "names", "names", proto.VerifBasic(proto.STRING), true)
+	proto.VerifBuild(inner)
+	msg := proto.VerifNewMessage("M")
+	if shape == 0 {
+		proto.VerifAddMap(msg, 2, "members", "members", proto.VerifBasic(proto.STRING), inner)
+	} else {
+		proto.VerifAddField(msg, 3, "one", "one", inner, false)
+		proto.VerifAddField(msg, 2, "tail", "tail", proto.VerifBasic(proto.STRING), true)
+	}
+	proto.VerifBuild(msg)
+	mk := func(n int, tag byte) ([]byte, [][]byte) {
+		var ib []byte
+		var vs [][]byte
+		for i := 0; i < n; i++ {
+			s := []byte{tag, byte('0' + i), vrt.U8()}
+			if vrt.Bool() {
+				s = s[:2] // symbolic element length
+			}
+			vs = append(vs, s)
+			ib = gpw.AppendBytes(gpw.AppendTag(ib, 2, gpw.BytesType), s)
+		}
+		return ib, vs
+	}
+	ia, va := mk(ca, 'a')
+	ib, vb := mk(cb, 'b')
+	var b []byte
+	var first, second []Path
+	fld := func(id proto.FieldNumber, name string) Path {
+		if byName {
+			return NewPathFieldName(name)
+		}
+		return NewPathFieldId(id)
+	}
+	if shape == 0 {
+		for i, in := range [][]byte{ia, ib} {
+			var e []byte
+			e = gpw.AppendBytes(gpw.AppendTag(e, 1, gpw.BytesType), []byte{byte('a' + i)})
+			e = gpw.AppendBytes(gpw.AppendTag(e, 2, gpw.BytesType), in)
+			b = gpw.AppendBytes(gpw.AppendTag(b, 2, gpw.BytesType), e)
+		}
+		first = []Path{fld(2, "members"), NewPathStrKey("a"), fld(2, "names")}
+		second = []Path{fld(2, "members"), NewPathStrKey("b"), fld(2, "names")}
+	} else {
+		b = gpw.AppendBytes(gpw.AppendTag(b, 3, gpw.BytesType), ia)
+		for _, s := range vb {
+			b = gpw.AppendBytes(gpw.AppendTag(b, 2, gpw.BytesType), s)
+		}
+		first = []Path{fld(3, "one"), fld(2, "names")}
+		second = []Path{fld(2, "tail")}
+	}
+	root := NewRootValue(msg, b)
+	check := func(path []Path, vals [][]byte, label string) {
+		lst := root.GetByPath(path...)
+		if len(vals) == 0 {
+			vrt.Assert(lst.IsErrNotFound(), label+".empty.notfound")
+			return
+		}
+		vrt.Assert(!lst.IsError(), label+".noerror")
+		if lst.IsError() {
+			return
+		}
+		n, err := lst.Len()
+		vrt.Assert(err == nil && n == len(vals), label+".len")
+		for i := 0; i <= len(vals); i++ {
+			e := root.GetByPath(append(append([]Path{}, path...), NewPathIndex(i))...)
+			if i == len(vals) {
+				vrt.Assert(e.IsErrNotFound(), label+".pastend.notfound")
+				continue
+			}
+			s, err := e.String()
+			vrt.Assert(err == nil && len(s) == len(vals[i]) && vrt.BytesEq([]byte(s), 0, len(s), vals[i], 0, len(vals[i])), label+".element")
+		}
+	}
+	vrt.Reach("checked")
+	check(first, va, "C07.nested-repeated.first")
+	check(second, vb, "C07.nested-repeated.following")
+}
